@@ -383,6 +383,8 @@ example : Q2Inv 16 ⟨false, false, [], 100, 0, 0, [(0, 1), (4, 4)], 0, 0⟩ :=
     refine ⟨by omega, ?_⟩
     show k * 2 ^ (0 + 4) < 100
     omega⟩
+/-- open finding c02-qblock2-num-2e20: with `total_len` > 2^20 blocks the M variant asks for block 2^20 (a 21-bit number) -/
+example : reqMissingQ2 2 true [(1048575, 1048575)] 0 16777217 = ([(1048576, 1)], some 524288) := by decide
 /-- the one request that is NOT a recovery request — the `continue` for the next payload set, NUM = range[0].end + 1 — can name
 a block BEYOND the body when a hostile server sends the last block first (documented behaviour, design/C02.md): body of 97
 bytes = blocks 0..6; block 6 (M=0, 1 byte), then block 5 (M=1) → a recovery request for blocks 0, 1, 2 and a `continue` for block 7. -/
